@@ -14,9 +14,33 @@ import (
 )
 
 type tcase struct {
-	L []int `json:"left"`
-	R []int `json:"right"`
-	N int   `json:"n"`
+	L     []int    `json:"left"`
+	R     []int    `json:"right"`
+	N     int      `json:"n"`
+	Alpha []string `json:"alphabet,omitempty"` // default: a b c d
+}
+
+// lcase describes a long pair (mdiffh.LongPair) and a context size.
+type lcase struct {
+	N    int  `json:"lines"`
+	Gap  int  `json:"gap"`
+	Ctx  int  `json:"n"`
+	Swap bool `json:"swap,omitempty"`
+}
+
+func checkLongCase(l lcase) *mc.Failure {
+	al, L, R := mdiffh.LongPair(l.N, l.Gap)
+	if l.Swap {
+		L, R = R, L
+	}
+	f := check(tcase{L, R, l.Ctx, al})
+	if f != nil {
+		if len(f.Msg) > 600 {
+			f.Msg = f.Msg[:600] + "..."
+		}
+		f.Msg = fmt.Sprintf("long pair (%d lines, %d unchanged lines between edits, swap=%v): %s", l.N, l.Gap, l.Swap, f.Msg)
+	}
+	return f
 }
 
 var alphabet = []string{"a", "b", "c", "d"}
@@ -68,7 +92,11 @@ func ordered(cs []*mdiff.Chunk, strict bool, stage string) *mc.Failure {
 
 func check(t tcase) *mc.Failure {
 	return mc.GuardT("chunks", t, func() *mc.Failure {
-		left, right := mdiffh.Lines(t.L, alphabet), mdiffh.Lines(t.R, alphabet)
+		al := alphabet
+		if t.Alpha != nil {
+			al = t.Alpha
+		}
+		left, right := mdiffh.Lines(t.L, al), mdiffh.Lines(t.R, al)
 		l0, r0 := append([]string(nil), left...), append([]string(nil), right...)
 		d := mdiff.New(left, right)
 		edits0 := snapshot([]*mdiff.Chunk{{Edits: d.Edits}})[0].edits
@@ -189,7 +217,7 @@ func main() {
 					for _, b := range seqs {
 						nmax := max(len(seqs[i]), len(b)) + 1
 						for n := 0; n <= nmax; n++ {
-							t := tcase{seqs[i], b, n}
+							t := tcase{seqs[i], b, n, nil}
 							if f := check(t); f != nil {
 								r.Violation(mc.Case{Harness: "chunks", Trace: mc.J(t), Msg: f.Msg})
 							}
@@ -204,7 +232,7 @@ func main() {
 			}
 			r.AddEval(evals, evals, evals, multi)
 			r.Rule("New, AddContext(n), Unify on every pair and every context size; chunk replay, context bounds, ordering/disjointness, splice = Right, Edits and inputs undisturbed; non-trivial = cases with at least two chunks (context can interact)")
-			r.Sample(tcase{[]int{0, 1}, []int{0, 0, 1, 0}, 2})
+			r.Sample(tcase{[]int{0, 1}, []int{0, 0, 1, 0}, 2, nil})
 		},
 		Replay: func(c mc.Case) *mc.Failure {
 			var t tcase
@@ -212,6 +240,38 @@ func main() {
 				return mc.Failf(-1, "bad trace: %v", err)
 			}
 			return check(t)
+		},
+	}, mc.Harness{
+		Name: "chunks-long",
+		Explore: func(r *mc.Run) {
+			var cases []lcase
+			for _, n := range mc.Pick(r, []int{12, 40, 130, 300}, []int{12, 40, 130, 300, 1100, 2500}) {
+				for gap := 0; gap <= 11; gap++ {
+					for _, ctx := range []int{0, 1, 2, 3, 4, 5, 6, 8, 13, n} {
+						cases = append(cases, lcase{n, gap, ctx, false}, lcase{n, gap, ctx, true})
+					}
+				}
+			}
+			var multi int64
+			mc.ParallelFor(len(cases), r.Workers, func(i int) {
+				if f := checkLongCase(cases[i]); f != nil {
+					r.Violation(mc.Case{Harness: "chunks-long", Trace: mc.J(cases[i]), Msg: f.Msg})
+				}
+				if cases[i].Gap > 2*cases[i].Ctx {
+					atomic.AddInt64(&multi, 1)
+				}
+			})
+			n := int64(len(cases))
+			r.AddEval(n, n, n, multi)
+			r.Rule("files of 12...300/2500 lines with an edit every gap+1 lines (gap 0...11: deletions, insertions, replacements of one or two lines, repeated lines, an insertion at the end), context 0...13 and the whole file, both directions; the same oracle as the short pairs; non-trivial = cases where the context leaves the chunks apart")
+			r.Sample(lcase{130, 5, 3, false})
+		},
+		Replay: func(c mc.Case) *mc.Failure {
+			var l lcase
+			if err := mc.Unmarshal(c.Trace, &l); err != nil {
+				return mc.Failf(-1, "bad trace: %v", err)
+			}
+			return checkLongCase(l)
 		},
 	})
 }
